@@ -958,10 +958,14 @@ Termination == <>(\A self \in ProcSet: pc[self] = "Done")
 -----------------------------------------------------------------------------
 Finished == pc["searcher"] = "Done"
 
-\* C11 at design level: without cache probes, every completed iteration has the exact minimax
-\* value of the look-ahead game and the chosen move has that value, whatever the move order.
+\* C11 at design level: every completed iteration has the exact minimax value of the look-ahead game and the
+\* chosen move has that value, whatever the move order.  With cache probes on this still holds in this family
+\* of trees (transposing nodes sit at the same level, so an entry that passes the depth test was computed for
+\* the same remaining depth): the cache is a pure optimisation here.  (Trusting Upper entries of shallower
+\* searches does NOT break this on all 256 trees with B = 2, D = 3, evaluations {0,1} - TLC, 23 M states - which
+\* matches how rarely that seeded defect shows in real positions; see DESIGN.md 14.5.)
 ValueExact ==
-  UseTT \/ \A i \in 1..Len(done) : /\ done[i][1] = RootVal(i)
+  \A i \in 1..Len(done) : /\ done[i][1] = RootVal(i)
                                    /\ 0 - LookVal(done[i][2], i - 1) = RootVal(i)
 
 \* C13 at design level: nothing is written to the cache after an abort-return.
